@@ -90,6 +90,54 @@ pub fn exp_c05(e: &mut Exp) {
     }
 }
 
+/// C05, long streams (n >> 1000k) and batches through `Extend`: region frequencies.
+/// The documented gap-sampling bias (relative order 1/k, slowly growing with n/k) is allowed for.
+pub fn exp_c05_long(e: &mut Exp) {
+    let cfgs: &[(u64, u64, u64)] = if e.scale > 1 { &[(16, 32_000, 600), (64, 96_000, 200), (4, 6_000, 3000)] } else { &[(16, 24_000, 250), (4, 6_000, 1200)] };
+    for &(k, n, seeds) in cfgs {
+        let bounds = [0.0, 0.5, 0.75, 0.9, 1.0];
+        let mut region = [0u64; 4];
+        for _ in 0..seeds {
+            let mut rs = ReservoirSampling::<u64, ScriptRng>::new(k as usize, ScriptRng::new(e.rng.next()));
+            // half of the stream through add, the rest through extend in two batches
+            let h = n / 2;
+            for i in 0..h {
+                rs.add(i);
+            }
+            rs.extend(h..(h + n / 4));
+            rs.extend((h + n / 4)..n);
+            if rs.i() as u64 != n {
+                e.fails.push(format!("reservoir k={}: i() = {} after {} items fed through add and extend", k, rs.i(), n));
+                return;
+            }
+            for x in rs.reservoir() {
+                let f = *x as f64 / n as f64;
+                for r in 0..4 {
+                    if f >= bounds[r] && (f < bounds[r + 1] || r == 3) {
+                        region[r] += 1;
+                        break;
+                    }
+                }
+            }
+            e.evals += 1;
+        }
+        for r in 0..4 {
+            let frac = bounds[r + 1] - bounds[r];
+            let expect = seeds as f64 * k as f64 * frac;
+            let sigma = (expect * (1.0 - frac)).sqrt();
+            let allow = (1.0 / k as f64) * (1.0 + (n as f64 / (4.0 * k as f64)).ln()) * 0.35 + 0.05;
+            let dev = (region[r] as f64 - expect).abs();
+            e.statmax("c05.long_region_dev_x1000", (dev / expect * 1000.0) as u64);
+            if dev > 5.5 * sigma + allow * expect {
+                e.fails.push(format!(
+                    "reservoir k={} n={}: stream region [{}, {}) holds {:.3} of the sampled items, expected {:.3} (+- {:.3})",
+                    k, n, bounds[r], bounds[r + 1], region[r] as f64 / (seeds * k) as f64, frac, (5.5 * sigma + allow * expect) / (seeds * k) as f64
+                ));
+            }
+        }
+    }
+}
+
 // ---------------------------------------------------------------------------------------------
 // C03: HyperLogLog relative error over independent hash streams
 pub fn exp_c03(e: &mut Exp) {
@@ -710,6 +758,15 @@ pub fn exp_c11(e: &mut Exp) {
             }
             check_mem(e, &format!("reservoir k={} after {} adds", k, n), crate::alloc::live() - base, doc, 256);
         }
+        drop(r);
+        // the whole stream through Extend (exact size_hint), fresh and after clear
+        let mut r = ReservoirSampling::<u64, ScriptRng>::new(k, ScriptRng::new(1));
+        let base = crate::alloc::live();
+        r.extend(0..lens[1]);
+        check_mem(e, &format!("reservoir k={} after extend of {} items", k, lens[1]), crate::alloc::live() - base, doc, 256);
+        r.clear();
+        r.extend(0..lens[2]);
+        check_mem(e, &format!("reservoir k={} after clear and extend of {} items", k, lens[2]), crate::alloc::live() - base, doc, 256);
     }
     // --- t-digest: O(delta + max_backlog_size) centroids ----------------------------------------
     for &(delta, bl) in &[(10.0f64, 0usize), (100.0, 10), (100.0, 1000), (1000.0, 100)] {
@@ -764,6 +821,22 @@ pub fn exp_c11(e: &mut Exp) {
             // hashbrown: (16-byte key + 16-byte entry + 1 control byte) per slot, load <= 7/8, power-of-two growth
             let doc = entries * 34 * 2;
             check_mem(e, &format!("lossy width={} after {} adds", width, n), crate::alloc::live() - base, doc, 512);
+        }
+        drop(l);
+        // window-aligned stream: a hot element on the first and last position of every window
+        let mut l = LossyCounter::<u64>::with_width(width);
+        let base = crate::alloc::live();
+        let mut i = 0u64;
+        for &n in lens.iter().take(2) {
+            while i < n {
+                let pos = (i + 1) % width as u64;
+                l.add(if pos == 0 || pos == 1 { 7 } else { 1_000_000 + i });
+                i += 1;
+            }
+            let b = (n as usize + width - 1) / width;
+            let hsum: f64 = (1..=b).map(|x| 1.0 / x as f64).sum();
+            let entries = (width as f64 * (hsum + 1.0)) as usize;
+            check_mem(e, &format!("lossy width={} after {} window-aligned adds", width, n), crate::alloc::live() - base, entries * 34 * 2, 512);
         }
     }
 }
